@@ -104,10 +104,15 @@ OerVerdict(env, T, v, o) ==
   ELSE IF ~Admits(env, T, v) THEN V("OER", "skip", "value not admitted")
   ELSE LET b == o.enc.b
            std == OerEncode(env, T, v, {})
-       IN IF b = std \/ b = OerEncode(env, T, v, {"OptOerNamedBitsAsGiven"}) THEN V("OER", "ok", "")
+           optsA == {"OptOerNamedBitsAsGiven"}
+           optsB == {"OptOerDefaultEquivalentEncoded"}
+       IN IF b = std \/ b = OerEncode(env, T, v, optsA) \/ b = OerEncode(env, T, v, optsB)
+             \/ b = OerEncode(env, T, v, optsA \cup optsB) THEN V("OER", "ok", "")
           ELSE LET ex1 == Explaining(LAMBDA S : OerEncode(env, T, v, S), b, OerDevs)
-                   ex == IF ex1 # "none" THEN ex1
-                         ELSE Explaining(LAMBDA S : OerEncode(env, T, v, S \cup {"OptOerNamedBitsAsGiven"}), b, OerDevs)
+                   ex2 == IF ex1 # "none" THEN ex1
+                          ELSE Explaining(LAMBDA S : OerEncode(env, T, v, S \cup optsA), b, OerDevs)
+                   ex == IF ex2 # "none" THEN ex2
+                         ELSE Explaining(LAMBDA S : OerEncode(env, T, v, S \cup optsA \cup optsB), b, OerDevs)
                IN IF ex # "none" THEN V("OER", "dev", ex)
                   ELSE V("OER", "reject", "differs from X.696; expected " \o ToString(std)
                                           \o " applicable:" \o ToString(RtApplicable(env, T, v, o.codec)))
